@@ -167,3 +167,22 @@ def store_node(ev: Evaluator, obj, attr):
         if o == obj and a == attr:
             return node, func
     return None, None
+
+
+def flat_conds(conds) -> set:
+    """A path condition as a set of (atomic condition, polarity): leading `not`s are
+    folded into the polarity, a true conjunction and a false disjunction are split
+    into their parts (De Morgan), comparisons are oriented (`!=` true == `==` false)."""
+    out = set()
+    for c, pol in conds:
+        while c[0] == "not":
+            c, pol = c[1], not pol
+        if c[0] == "and" and pol:
+            out |= flat_conds([(x, True) for x in c[1]])
+        elif c[0] == "or" and not pol:
+            out |= flat_conds([(x, False) for x in c[1]])
+        elif c[0] == "cmp" and c[1] == "!=":
+            out.add((("cmp", "==") + tuple(c[2:]), not pol))
+        else:
+            out.add((c, pol))
+    return out
